@@ -176,6 +176,8 @@ def rule_P_TABLE(ctx, scopes, floor_sites):
     inv = inventory(f, reach)
     n_add = 0
     n_sites = 0
+    import blen
+    blen_sites, _posts = blen.proofs(f)
     for key, p, bi, t in site_keys(f, inv):
         b = f.mir[p]
         ctx.fn(b)
@@ -185,7 +187,14 @@ def rule_P_TABLE(ctx, scopes, floor_sites):
             continue
         n_sites += 1
         ent = table.get(key)
+        # a slice site `env[a..]` / `env[..b]` whose bound B-LEN PROVES on the current code is discharged by that proof: no reviewed reference
+        # is needed (and none can go stale when the code around it is restructured)
+        pr = blen_sites.get((p, bi))
+        proved = bool(pr) and pr[0] and pr[1] in ("from", "to") and "ops::Index::index" in key
         if ent is None:
+            if proved:
+                ctx.ob("P-GUARD", key + " (proved by B-LEN)", True, "", site)
+                continue
             ctx.ob("P-TABLE", key, False, "new panic edge: not in the reviewed table", site)
             continue
         sym = G.Sym(b)
@@ -200,6 +209,9 @@ def rule_P_TABLE(ctx, scopes, floor_sites):
         for bd in ent.get("bounds", []):
             if lower_bound(live, bd["expr"]) < bd["min"]:
                 missing.append("%s >= %d" % (bd["expr"], bd["min"]))
+        if proved and not (ok_ops and not missing):
+            ctx.ob("P-GUARD", key + " (proved by B-LEN)", True, "", site)
+            continue
         ctx.ob("P-GUARD", key, ok_ops and not missing,
                ("operands changed: %s (reviewed: %s)" % (json.dumps(ops, ensure_ascii=False), json.dumps(ent["ops"], ensure_ascii=False)) if not ok_ops else "")
                + (" reviewed guard no longer forced: %s" % missing if missing else ""), site)
@@ -531,14 +543,21 @@ def rule_R_BORDER(ctx, floor=10):
              "exceeds the slice it was computed on` that the callers' slice sites rely on")
     table = json.load(open(TABLE, encoding="utf-8")).get("borders", {})
     sites = border_sites(ctx.facts)
+    import blen
+    _sites, post_ok = blen.proofs(ctx.facts)
     for key, b, bi, st, ops, live in sites:
         ctx.fn(b)
         ent = table.get(key)
         site = "%s:%s" % (b["span"]["file"], st["line"])
+        # B-LEN proves `every returned border <= len(env)` for this function on the current code: the reviewed expression is not needed
+        proved = post_ok.get(b["path"]) is True
         if ent is None:
-            ctx.ob("R-BORDER", key, False, "new returned border, not in the reviewed table", site)
+            ctx.ob("R-BORDER", key + (" (post proved by B-LEN)" if proved else ""), proved, "new returned border, not in the reviewed table", site)
             continue
         missing = [x for x in ent["need"] if x not in live]
+        if proved and not (ops == ent["ops"] and not missing):
+            ctx.ob("R-BORDER", key + " (post proved by B-LEN)", True, "", site)
+            continue
         ctx.ob("R-BORDER", key, ops == ent["ops"] and not missing,
                ("border expression changed: %s (reviewed %s)" % (ops, ent["ops"]) if ops != ent["ops"] else "") + (" reviewed guard no longer forced: %s" % missing if missing else ""), site)
     ctx.floor("returned borders", len(sites), floor)
